@@ -301,4 +301,77 @@ theorem loop_fails (cs limit : Nat) (inlineOK etc : Bool) (gen : Nat) (hcs : 0 <
       simp only [htt, hdt, hpl, hnl, hl1, h0, hinl, and_false, Bool.false_eq_true, false_and, Nat.lt_irrefl, if_false]
       rw [hrec]
 
+/-! ### how many chunks the loop uploads -/
+
+/-- the loop never drops a chunk it has collected -/
+theorem loop_acc_le (cs limit : Nat) (inlineOK etc : Bool) (gen : Nat) (fails : Bool) :
+    ∀ (fuel : Nat) (rest : List Nat) (off : Nat) (acc : List MChunk),
+      acc.length ≤ (uploadLoop cs limit inlineOK etc gen fails fuel rest off acc).chunks.length := by
+  intro fuel
+  induction fuel with
+  | zero => intro rest off acc; exact Nat.le_refl _
+  | succ fuel ih =>
+    intro rest off acc
+    unfold uploadLoop
+    simp only
+    split
+    · exact Nat.le_refl _
+    · split
+      · exact Nat.le_refl _
+      · split
+        · exact Nat.le_refl _
+        · split
+          · simp
+          · refine Nat.le_trans ?_ (ih _ _ _)
+            simp
+
+/-- error-free reader, inline branch not taken: a body that reaches beyond `k` whole chunks has a chunk read k-th -/
+theorem loop_count (cs limit : Nat) (inlineOK etc : Bool) (gen : Nat) (hcs : 0 < cs) :
+    ∀ (fuel : Nat) (rest : List Nat) (off : Nat) (acc : List MChunk) (k : Nat), rest.length < fuel →
+      (off ≠ 0 ∨ inlineOK = false ∨ (etc = false ∧ limit ≤ min cs rest.length)) → k * cs < rest.length →
+      acc.length + k < (uploadLoop cs limit inlineOK etc gen false fuel rest off acc).chunks.length := by
+  intro fuel
+  induction fuel with
+  | zero => intro rest off acc k h; omega
+  | succ fuel ih =>
+    intro rest off acc k hfuel hni hk
+    have hpos : 0 < rest.length := by omega
+    unfold uploadLoop
+    simp only [List.length_take, Bool.false_eq_true, false_and, if_false]
+    have h0 : ¬ min cs rest.length = 0 := by omega
+    rw [if_neg h0]
+    have hinl : ¬ (off = 0 ∧ inlineOK = true ∧ (min cs rest.length < limit ∨ etc = true)) := by
+      rintro ⟨h1, h2, h3⟩
+      rcases hni with h | h | ⟨h, h'⟩
+      · exact h h1
+      · rw [h] at h2; cases h2
+      · rcases h3 with h3 | h3
+        · omega
+        · rw [h] at h3; cases h3
+    rw [if_neg hinl]
+    by_cases hshort : min cs rest.length < cs
+    · rw [if_pos hshort]
+      have hk0 : k = 0 := by
+        cases k with
+        | zero => rfl
+        | succ k =>
+          have : (k + 1) * cs = k * cs + cs := Nat.succ_mul k cs
+          omega
+      subst hk0
+      simp
+    · rw [if_neg hshort]
+      have hmin : min cs rest.length = cs := by omega
+      cases k with
+      | zero =>
+        refine Nat.lt_of_lt_of_le ?_ (loop_acc_le cs limit inlineOK etc gen false fuel _ _ _)
+        simp
+      | succ k =>
+        have hsm : (k + 1) * cs = k * cs + cs := Nat.succ_mul k cs
+        have := ih (rest.drop cs) (off + min cs rest.length)
+          (acc ++ [{ off := off, gen := gen, data := rest.take cs }]) k
+          (by simp only [List.length_drop]; omega) (Or.inl (by omega))
+          (by simp only [List.length_drop]; omega)
+        simp only [List.length_append, List.length_singleton] at this
+        omega
+
 end SwV.Lemmas.C25
